@@ -297,7 +297,7 @@ PROPS["C09"] = {
         "quick": {"groups": [{"filters": ["c09_q_"], "timeout": 1800, "jobs": 2, "mem_gb": 30, "cbmc_args": ["--unwindset", "memcmp.0:60"]}],
                   "bounds": "N = 16 (Sign, shorter than a signature), 37 (SignAndEncrypt, ragged ciphertext), 20 (mode None), 48 with declared size 44 (Sign); unwind 2 (+ memcmp 60)"},
         "thorough": {"groups": [{"filters": ["c09_q_", "c09_t_"], "timeout": 2400, "jobs": 2, "mem_gb": 30, "cbmc_args": ["--unwindset", "memcmp.0:60"]}],
-                     "bounds": "adds N = 30, 24, 60, 44/48, 16 (empty ciphertext), 48 (SHA-256, SignAndEncrypt), the OPN null-certificate chunk (89 bytes) and the two-step OPN/MSG history"},
+                     "bounds": "adds N = 30, 24 (SHA-256), 44 declaring 48, 16 (empty ciphertext), the OPN null-certificate chunk (89 bytes) and the two-step OPN/MSG history"},
     },
 }
 
